@@ -311,9 +311,14 @@ func (i *Interpreter) extractBoilerplateMacro(sub *ast.SubroutineDeclaration) er
 }
 
 func hasFastlyBoilerplateMacro(cs ast.Comments, macroName string) bool {
+	// The macro has the form "#FASTLY [scope]" (see the linter): a single "#" directly followed by
+	// "FASTLY", the scope is case-insensitive. An ordinary comment which mentions fastly is no macro
 	for _, c := range cs {
-		line := strings.TrimLeft(c.String(), " */#")
-		if strings.HasPrefix(strings.ToUpper(line), macroName) {
+		line := c.String()
+		if !strings.HasPrefix(line, "#FASTLY ") || len(line) < len(macroName)+1 {
+			continue
+		}
+		if strings.EqualFold(line[1:len(macroName)+1], macroName) {
 			return true
 		}
 	}
